@@ -585,6 +585,24 @@ class Check(Property):
                                          f"{want[0]} {want[1]}, the registry answers {got}")
         except Exception as exc:  # noqa: BLE001
             v.append(f"C10 import-cache probe raised {type(exc).__name__}: {exc}")
+        # two byte-identical files in different folders, each importing ITS OWN neighbour, loaded through one cache folder
+        try:
+            with tempfile.TemporaryDirectory(prefix="c10_imp2_") as d:
+                cf = os.path.join(d, "cache")
+                for sub, fac in (("a", 10), ("b", 35)):
+                    os.makedirs(os.path.join(d, sub))
+                    open(os.path.join(d, sub, "main.txt"), "w").write("foo = [length]\n@import sub.txt\n")
+                    open(os.path.join(d, sub, "sub.txt"), "w").write(f"bar = {fac} * foo\n")
+                for sub, fac in (("a", 10), ("b", 35), ("a", 10), ("b", 35)):
+                    try:
+                        got = Fraction(pint.UnitRegistry(os.path.join(d, sub, "main.txt"), cache_folder=cf).get_root_units("bar")[0])
+                    except Exception as exc:  # noqa: BLE001
+                        got = type(exc).__name__
+                    if got != fac:
+                        v.append(f"C10 one cache folder, identical files {sub}/main.txt importing their own sub.txt: {sub}/sub.txt says bar = {fac} foo, "
+                                 f"the registry answers {got}")
+        except Exception as exc:  # noqa: BLE001
+            v.append(f"C10 import-location probe raised {type(exc).__name__}: {exc}")
         return v[:6]
 
     def oracle(self, c):
